@@ -110,6 +110,7 @@ def step(M):
     """executes one instruction on M; returns (status, detail). status in ok | undef | abort | svc | smc | hyptrap |
     unpred | notimpl | skip"""
     M.branched = False
+    M.ls_syndrome = None
     try:
         if M.s['cpsr'] & (1 << 24):
             raise Skip('Jazelle / ThumbEE state is not modelled')
